@@ -21,7 +21,7 @@ EXPLANATION = (
     "order statistic: they commute with positive rescaling and negation)."
 )
 NOT_DECIDED = "the invariance of the returned list on data; scipy's statistics"
-FLOORS = {"R-abs-corr": 2, "R-no-float-truthiness": 10, "R-rank-desc": 5, "R-defaults": 5, "R-column-order-free": 2, "R-colsample-cover": 2, "R-encoding-free": 10}
+FLOORS = {"R-abs-corr": 2, "R-no-float-truthiness": 10, "R-rank-desc": 5, "R-defaults": 5, "R-column-order-free": 3, "R-colsample-cover": 2, "R-encoding-free": 10}
 
 
 def check(ctx):
@@ -32,6 +32,7 @@ def check(ctx):
     S.check_column_order_free(ctx, "R-column-order-free")
     S.check_colsample_cover(ctx, "R-colsample-cover")
     S.check_measure_encodings(ctx, "R-encoding-free")
+    S.check_target_alignment(ctx, "R-column-order-free")
 
 
 _D14_FIXED = "    # absolute linear correlation (1 - correlation distance): the greater, the more associated\n    d_corr = abs(1 - correlation(x[~nans], y[~nans]))\n\n    # updating association\n    active, measurement = False, {\"distance_measure\": nan}\n    if d_corr == d_corr:  # checking for nan"
